@@ -253,9 +253,43 @@ def precommit_veto_scenario(ctx):
         w.close()
 
 
+def send_failure_scenario(ctx):
+    """The commit itself fails while the reports are sent (the committed content is not schema valid and a subscriber
+    exists, so serialisation of the notification raises ValidationError inside the commit): the statement demands that the
+    MDIB is exactly what it was before. The pinned code has applied the transaction before it sends (known finding)."""
+    p = lb.Provider(mdib_path=c02.MDIBS[1], start=True, role_providers=False, sync=True)
+    cons = None
+    try:
+        cons = lb.Consumer(p, init_mdib=False, subscribe_reports=True)
+        m = p.mdib
+        w = tx.World(p, ctx.subrng('sendfail'))
+        w.mdib_path = c02.MDIBS[1]
+        before = full_snapshot(w)
+        raised = None
+        try:
+            with m.context_state_transaction() as mgr:
+                st = mgr.mk_context_state('PC.mds0', 'sf_patient', set_associated=True)
+                st.BindingMdibVersion = -1       # not an xsd:unsignedLong: the EpisodicContextReport cannot be serialised
+        except Exception as ex:  # noqa: BLE001
+            raised = type(ex).__name__
+        after = full_snapshot(w)
+        w.close()
+        case = {'send_failure_scenario': True, 'raised': raised}
+        if raised is not None and after != before:
+            ctx.fail('commit-failed-in-report-serialisation-changed-mdib',
+                     f'commit raised {raised} while sending the report, but the MDIB was changed: {lb.diff_snapshots(before, after)[:3]}', case)
+        ctx.case(case, nontrivial=True)
+        ctx.count('send-failure-scenarios')
+    finally:
+        if cons is not None:
+            cons.stop()
+        p.stop()
+
+
 def run(ctx):
     c02.run(ctx, hook_cls=C03Hook, prop='C03', drv='drv_c03')
     precommit_veto_scenario(ctx)
+    send_failure_scenario(ctx)
 
 
 def search(ctx):
@@ -266,6 +300,11 @@ def replay(ctx, obj):
     lb.quiet()
     case = obj['case']
     ctx2 = core.Ctx('C03', 'quick', 0)
+    if 'send_failure_scenario' in case:
+        send_failure_scenario(ctx2)
+        for f in ctx2.failures:
+            print('  ', f['signature'], ':', f['detail'])
+        return any(f['signature'] == obj['signature'] for f in ctx2.failures)
     if 'veto_scenario' in case:
         precommit_veto_scenario(ctx2)
         for f in ctx2.failures:
